@@ -456,6 +456,12 @@ def with_layout(draw, extra, **kw):
         s["seed_form"] = draw(st.sampled_from(["int", "int", "numpy"]))
     if s["C"] >= 2 and draw(st.integers(0, 3)) == 0:
         s["name_mod"] = draw(st.integers(1, s["C"] - 1))
+        if "how" in s:
+            # shared names only matter for the class filter's by-name arguments on the ordinary (not the wide) layout: generate that
+            # combination on purpose instead of leaving it to the product of three independent draws
+            s["wide"] = None
+            if draw(st.integers(0, 3)) != 0:
+                s["how"] = s["how"].replace("_classes", "_class_names")
     return s
 
 
